@@ -224,6 +224,17 @@ func (ww *conversionVisitor) visitObjectNode(node *sourcewalk.ObjectNode) {
 				ww.addError(node.Source, err)
 			}
 
+			if propertyDesc.GetProto3Optional() {
+				// `optional` in proto3 is a oneof holding just that field (the
+				// synthetic oneof protoc adds), which is what gives the field
+				// presence. Without it the flag is set but unset and zero are
+				// the same message.
+				propertyDesc.OneofIndex = gl.Ptr(int32(len(message.descriptor.OneofDecl)))
+				message.descriptor.OneofDecl = append(message.descriptor.OneofDecl, &descriptorpb.OneofDescriptorProto{
+					Name: gl.Ptr("_" + propertyDesc.GetName()),
+				})
+			}
+
 			// Take the index (prior to append len == index), not the field number
 			locPath := []int32{2, int32(len(message.descriptor.Field))}
 			message.comment(locPath, node.Schema.Description)
